@@ -860,7 +860,7 @@ class Engine:
             val = NONE if node.value is None else self.ev(node.value, st)
             return [("return", st, val)]
         if isinstance(node, ast.Assert):
-            cond = self.truth(self.ev(node.test, st), st)
+            cond = self.ev_test(node.test, st)
             if self.concrete:
                 cc = BoolV(cond).concrete()
                 if cc is None:
@@ -880,7 +880,7 @@ class Engine:
                 name = exc.attr
             return [("raise", st, name)]
         if isinstance(node, ast.If):
-            cond = self.truth(self.ev(node.test, st), st)
+            cond = self.ev_test(node.test, st)
             cc = BoolV(cond).concrete()
             out = []
             if cc is not False:
@@ -1127,7 +1127,7 @@ class Engine:
         for _ in range(400):
             nxt = []
             for s in live:
-                g = BoolV(self.truth(self.ev(node.test, s), s)).concrete()
+                g = BoolV(self.ev_test(node.test, s)).concrete()
                 if g is None:
                     raise Unsupported("concrete mode: symbolic loop guard")
                 if not g:
@@ -1166,7 +1166,7 @@ class Engine:
         body_st = st.fork()
         self.havoc(body_st, carried)
         body_st.assume(inv_formula(body_st))
-        guard = self.truth(self.ev(node.test, body_st), body_st)
+        guard = self.ev_test(node.test, body_st)
         body_st.assume(guard)
         results = []
         for kind, s, val in self.exec_block(node.body, body_st):
@@ -1182,7 +1182,7 @@ class Engine:
         exit_st = st.fork()
         self.havoc(exit_st, carried)
         exit_st.assume(inv_formula(exit_st))
-        g2 = self.truth(self.ev(node.test, exit_st), exit_st)
+        g2 = self.ev_test(node.test, exit_st)
         exit_st.assume(z3.Not(g2))
         if node.orelse:
             results += self.exec_block(node.orelse, exit_st)
@@ -1244,6 +1244,16 @@ class Engine:
         raise Unsupported(f"cannot havoc loop-carried variable '{nm}' of shape {type(cur).__name__}")
 
     # ------------------------------------------------------------ expressions
+    def ev_test(self, node, st):
+        """value of an expression in a TEST position (if / while / assert / conditional expression): only its
+        truthiness is used, so  `xs and cond`  is the conjunction of the operands' truth values"""
+        saved, self._test_node = getattr(self, "_test_node", None), node
+        try:
+            v = self.ev(node, st)
+        finally:
+            self._test_node = saved
+        return self.truth(v, st)
+
     def truth(self, v, st):
         """Python truthiness as a z3 Bool."""
         if isinstance(v, bool):
@@ -1490,6 +1500,9 @@ class Engine:
         if all(isinstance(v, (BoolV, bool)) for v, _ in vals):
             ts = [t for _, t in vals]
             return BoolV(z3.And(ts) if isinstance(node.op, ast.And) else z3.Or(ts))
+        if node is getattr(self, "_test_node", None):
+            ts = [t for _, t in vals]
+            return BoolV(z3.And(ts) if isinstance(node.op, ast.And) else z3.Or(ts))
         raise Unsupported("and/or returning a non-boolean operand")
 
     def ev_Compare(self, node, st):
@@ -1568,7 +1581,7 @@ class Engine:
         raise Unsupported(f"'in' on {coll!r}")
 
     def ev_IfExp(self, node, st):
-        cond = self.truth(self.ev(node.test, st), st)
+        cond = self.ev_test(node.test, st)
         if self.concrete:
             cc0 = BoolV(cond).concrete()
             if cc0 is not None:
